@@ -121,6 +121,7 @@ __CPROVER_ensures((OLD(g_qb.n) > 1) ==> g_pollr == OLD(g_pollr))
  * non-end words, modules/xrespond/spec.h):
  *  - malformed (body exhausted before the end word) => disconnected, freed, never delivered;
  *  - no end word within ttl words                   => dropped, NOT disconnected, receive re-armed;
+ *  (stated outcome-keyed, see modules/xrespond/spec.h: exactly one outcome + outcome ==> class)
  *  - well formed: the backtrace (n+1 words, <= 60 bytes) is split off the body;
  *      pipe already closed     => abandoned (freed);
  *      a context is waiting    => exactly the first waiting context gets the body (empty
@@ -148,15 +149,17 @@ __CPROVER_ensures(VP_NO_LOCK_HELD)
 __CPROVER_ensures(g_pipe_close_calls == OLD(g_pipe_close_calls) + 1 && g_pipe_close_last == RC_P->npipe && g_pipe_recv_calls == OLD(g_pipe_recv_calls) && g_fin_calls == OLD(g_fin_calls) && g_qa.n == OLD(g_qa.n) && g_qb.n == OLD(g_qb.n))
 ;
 #else
-#define RC_OK BT_OK(g_n, RC_TTL, RC_LEN0)
-#define RC_HELD (RC_OK && !RC_P->closed && OLD(g_qa.n) == 0)
-#define RC_DELIV (RC_OK && !RC_P->closed && OLD(g_qa.n) > 0)
+/* outcomes (bookkeeping only) */
+#define RC_X_DISC (g_pipe_close_calls == OLD(g_pipe_close_calls) + 1)
+#define RC_X_DROP (g_pipe_recv_calls == OLD(g_pipe_recv_calls) + 1 && g_fin_calls == OLD(g_fin_calls))
+#define RC_X_HELD (g_qb.n == OLD(g_qb.n) + 1)
+#define RC_X_DELIV (g_fin_calls == OLD(g_fin_calls) + 1)
+#define RC_X_ABANDON (!RC_X_DISC && !RC_X_DROP && !RC_X_HELD && !RC_X_DELIV)
+#define RC_HL (OLD(RC_M)->m_header_len)
+#define RC_BL (RC_CTX0->btrace_len)
 static void resp0_pipe_recv_cb(void *arg)
 __CPROVER_requires(__CPROVER_is_fresh(arg, sizeof(struct resp0_pipe)) && __CPROVER_is_fresh(RC_S, sizeof(struct resp0_sock)) && RS_TTL_OK(RC_S) && VP_NO_LOCK_HELD)
 __CPROVER_requires(RC_P->aio_recv.a_result == 0 && SV_WIRE_MSG(RC_M) && CH_GHOST_PRE(&RC_M->m_body))
-#ifndef RC_NOCOUNT
-BT_COUNT_REQ(RC_M, g_n)
-#endif
 __CPROVER_requires(BT_BODY_GHOSTS(RC_M))
 /* queue A = contexts blocked in receive (head: a context of its own with a pending receive aio), queue B = receivable pipes */
 __CPROVER_requires(g_qa_addr == &RC_S->recvq && g_qb_addr == &RC_S->recvpipes && RS_LISTS_PRE(sizeof(struct resp0_ctx), sizeof(struct resp0_pipe)) && g_qb.n < 8)
@@ -166,26 +169,31 @@ __CPROVER_requires(g_pollr_addr == &RC_S->readable && g_pollw_addr == &RC_S->wri
 __CPROVER_assigns(RC_P->aio_recv.a_msg, VP_PROTO_GHOST_LIST, VP_SYNC_GHOSTS, g_free_calls)
 __CPROVER_assigns(*RC_M; g_qa.n > 0: RC_CTX->raio, RC_CTX->btrace_len, RC_CTX->pipe_id, __CPROVER_object_from(RC_CTX->btrace), RC_CTX->raio->a_msg)
 __CPROVER_frees(RC_M, RC_M->m_body.ch_buf)
-__CPROVER_ensures(VP_NO_LOCK_HELD && VP_AIOQS_OK)
-__CPROVER_ensures(g_pipe_close_calls <= OLD(g_pipe_close_calls) + 1 && g_fin_calls <= OLD(g_fin_calls) + 1 && g_start_calls == OLD(g_start_calls))
-#ifndef RC_MIN
-/* malformed => disconnect, freed, never delivered */
-__CPROVER_ensures(BT_SHORT(g_n, RC_TTL, RC_LEN0) ==> (__CPROVER_was_freed(OLD(RC_M)) && RC_P->aio_recv.a_msg == NULL && g_pipe_close_calls == OLD(g_pipe_close_calls) + 1 && g_pipe_close_last == RC_P->npipe && g_fin_calls == OLD(g_fin_calls) && g_pipe_recv_calls == OLD(g_pipe_recv_calls) && g_qa.n == OLD(g_qa.n) && g_qb.n == OLD(g_qb.n)))
-/* too many hops => dropped, NOT disconnected, receive re-armed */
-__CPROVER_ensures(BT_TOOFAR(g_n, RC_TTL) ==> (__CPROVER_was_freed(OLD(RC_M)) && RC_P->aio_recv.a_msg == NULL && g_pipe_close_calls == OLD(g_pipe_close_calls) && g_fin_calls == OLD(g_fin_calls) && g_pipe_recv_calls == OLD(g_pipe_recv_calls) + 1 && g_pipe_recv_pipe == RC_P->npipe && g_pipe_recv_aio == &RC_P->aio_recv && g_qa.n == OLD(g_qa.n) && g_qb.n == OLD(g_qb.n)))
-/* well formed, pipe already closed => abandoned */
-__CPROVER_ensures((RC_OK && RC_P->closed) ==> (__CPROVER_was_freed(OLD(RC_M)) && RC_P->aio_recv.a_msg == NULL && g_pipe_close_calls == OLD(g_pipe_close_calls) && g_fin_calls == OLD(g_fin_calls) && g_pipe_recv_calls == OLD(g_pipe_recv_calls) && g_qa.n == OLD(g_qa.n) && g_qb.n == OLD(g_qb.n)))
-/* nobody waiting => survey stays on the pipe with header = backtrace; pipe receivable; socket readable; no new receive */
-__CPROVER_ensures(RC_HELD ==> (!__CPROVER_was_freed(OLD(RC_M)) && RC_P->aio_recv.a_msg == OLD(RC_M) && g_qb.n == OLD(g_qb.n) + 1 && g_last_app == (nni_aio *) arg && g_pollr && g_fin_calls == OLD(g_fin_calls) && g_pipe_recv_calls == OLD(g_pipe_recv_calls) && g_pipe_close_calls == OLD(g_pipe_close_calls) && OLD(RC_M)->m_header_len == 4 * (g_n + 1) && OLD(RC_M)->m_pipe == RC_P->id))
-__CPROVER_ensures((RC_HELD && g_k < 4 * (g_n + 1)) ==> HDR(OLD(RC_M))[g_k] == g_b)
-/* a context is waiting => exactly the first one gets it, once; it captures backtrace + pipe id; next receive armed */
-__CPROVER_ensures(RC_DELIV ==> (!__CPROVER_was_freed(OLD(RC_M)) && RC_P->aio_recv.a_msg == NULL && g_fin_calls == OLD(g_fin_calls) + 1 && g_fin_last == g_raio && g_fin_last_rv == 0 && g_fin_last_msg == OLD(RC_M) && g_fin_last_count == OLD(RC_M)->m_body.ch_len && OLD(RC_M)->m_header_len == 0 && OLD(RC_M)->m_pipe == RC_P->id && g_qa.n == OLD(g_qa.n) - 1 && g_qb.n == OLD(g_qb.n) && g_pipe_recv_calls == OLD(g_pipe_recv_calls) + 1 && g_pipe_recv_pipe == RC_P->npipe && g_pipe_recv_aio == &RC_P->aio_recv && g_pipe_close_calls == OLD(g_pipe_close_calls)))
-__CPROVER_ensures(RC_DELIV ==> (RC_CTX0->raio == NULL && RC_CTX0->btrace_len == 4 * (g_n + 1) && RC_CTX0->btrace_len <= RS_BTCAP - 4 && RC_CTX0->pipe_id == RC_P->id))
-__CPROVER_ensures((RC_DELIV && g_k < 4 * (g_n + 1)) ==> RS_BT(RC_CTX0)[g_k] == g_b)
-/* in both kept cases the body is the rest of the wire body, unchanged */
-__CPROVER_ensures((RC_HELD || RC_DELIV) ==> OLD(RC_M)->m_body.ch_len == RC_LEN0 - 4 * (g_n + 1))
-__CPROVER_ensures(((RC_HELD || RC_DELIV) && g_k >= 4 * (g_n + 1) && g_k < RC_LEN0) ==> OLD(RC_M)->m_body.ch_ptr[g_k - 4 * (g_n + 1)] == g_b)
-#endif
+__CPROVER_ensures(VP_NO_LOCK_HELD && VP_AIOQS_OK && g_start_calls == OLD(g_start_calls))
+/* exactly one outcome, with its bookkeeping:
+ *   disconnected (freed) | dropped (freed, NOT disconnected, receive re-armed) | abandoned (pipe closed: freed) |
+ *   held on the pipe (nobody waiting: receivable, readable, NO new receive = back-pressure) | delivered to the FIRST waiting context */
+__CPROVER_ensures(
+    (RC_X_DISC && g_pipe_close_last == RC_P->npipe && __CPROVER_was_freed(OLD(RC_M)) && RC_P->aio_recv.a_msg == NULL && g_pipe_recv_calls == OLD(g_pipe_recv_calls) && g_fin_calls == OLD(g_fin_calls) && g_qa.n == OLD(g_qa.n) && g_qb.n == OLD(g_qb.n))
+ || (g_pipe_close_calls == OLD(g_pipe_close_calls) && RC_X_DROP && g_pipe_recv_pipe == RC_P->npipe && g_pipe_recv_aio == &RC_P->aio_recv && __CPROVER_was_freed(OLD(RC_M)) && RC_P->aio_recv.a_msg == NULL && g_qa.n == OLD(g_qa.n) && g_qb.n == OLD(g_qb.n))
+ || (g_pipe_close_calls == OLD(g_pipe_close_calls) && g_pipe_recv_calls == OLD(g_pipe_recv_calls) && g_fin_calls == OLD(g_fin_calls) && g_qa.n == OLD(g_qa.n) && g_qb.n == OLD(g_qb.n) && RC_P->closed && __CPROVER_was_freed(OLD(RC_M)) && RC_P->aio_recv.a_msg == NULL)
+ || (g_pipe_close_calls == OLD(g_pipe_close_calls) && g_pipe_recv_calls == OLD(g_pipe_recv_calls) && g_fin_calls == OLD(g_fin_calls) && g_qa.n == OLD(g_qa.n) && RC_X_HELD && !RC_P->closed && OLD(g_qa.n) == 0 && g_last_app == (nni_aio *) arg && g_pollr && !__CPROVER_was_freed(OLD(RC_M)) && RC_P->aio_recv.a_msg == OLD(RC_M))
+ || (g_pipe_close_calls == OLD(g_pipe_close_calls) && g_pipe_recv_calls == OLD(g_pipe_recv_calls) + 1 && g_pipe_recv_pipe == RC_P->npipe && g_pipe_recv_aio == &RC_P->aio_recv && RC_X_DELIV && g_qa.n == OLD(g_qa.n) - 1 && g_qb.n == OLD(g_qb.n) && !RC_P->closed && OLD(g_qa.n) > 0 && !__CPROVER_was_freed(OLD(RC_M)) && RC_P->aio_recv.a_msg == NULL))
+/* disconnected ==> GARBAGE: fewer than ttl complete words and none of them is the end word */
+__CPROVER_ensures(RC_X_DISC ==> (RC_LEN0 / 4 < (size_t) RC_TTL && BT_NO_END_BELOW(RC_LEN0 / 4)))
+/* dropped ==> TOOMANY: the first ttl words exist and none is the end word */
+__CPROVER_ensures((RC_X_DROP && !RC_X_DISC) ==> (RC_LEN0 / 4 >= (size_t) RC_TTL && BT_NO_END_BELOW(RC_TTL)))
+/* held ==> ACCEPT: header = backtrace = words 0..n (n + 1 <= ttl words, <= 60 bytes), word n is the first with the high bit; body = rest */
+__CPROVER_ensures(RC_X_HELD ==> (RC_HL >= 4 && RC_HL % 4 == 0 && RC_HL / 4 <= (size_t) RC_TTL && RC_HL <= RC_LEN0 && OLD(RC_M)->m_body.ch_len == RC_LEN0 - RC_HL && OLD(RC_M)->m_pipe == RC_P->id))
+__CPROVER_ensures((RC_X_HELD && g_k < RC_HL) ==> HDR(OLD(RC_M))[g_k] == g_b)
+__CPROVER_ensures(RC_X_HELD ==> (BT_NO_END_BELOW(RC_HL / 4 - 1) && (g_k == RC_HL - 4 ==> BT_HB(g_b))))
+__CPROVER_ensures((RC_X_HELD && g_k >= RC_HL && g_k < RC_LEN0) ==> OLD(RC_M)->m_body.ch_ptr[g_k - RC_HL] == g_b)
+/* delivered ==> ACCEPT: exactly the first waiting context completes, once, with the body (empty header); it captures backtrace + pipe id */
+__CPROVER_ensures(RC_X_DELIV ==> (g_fin_last == g_raio && g_fin_last_rv == 0 && g_fin_last_msg == OLD(RC_M) && g_fin_last_count == OLD(RC_M)->m_body.ch_len && OLD(RC_M)->m_header_len == 0 && OLD(RC_M)->m_pipe == RC_P->id && RC_CTX0->raio == NULL && RC_CTX0->pipe_id == RC_P->id))
+__CPROVER_ensures(RC_X_DELIV ==> (RC_BL >= 4 && RC_BL % 4 == 0 && RC_BL / 4 <= (size_t) RC_TTL && RC_BL <= RC_LEN0 && OLD(RC_M)->m_body.ch_len == RC_LEN0 - RC_BL))
+__CPROVER_ensures((RC_X_DELIV && g_k < RC_BL) ==> RS_BT(RC_CTX0)[g_k] == g_b)
+__CPROVER_ensures(RC_X_DELIV ==> (BT_NO_END_BELOW(RC_BL / 4 - 1) && (g_k == RC_BL - 4 ==> BT_HB(g_b))))
+__CPROVER_ensures((RC_X_DELIV && g_k >= RC_BL && g_k < RC_LEN0) ==> OLD(RC_M)->m_body.ch_ptr[g_k - RC_BL] == g_b)
 ;
 #endif
 
